@@ -33,6 +33,9 @@ namespace HailVerif.TxRetry
 /-- the exception classes the classifier distinguishes (`pymysql.err.*`; `other` = any non-pymysql exception) -/
 inductive ErrClass where
   | operational | internal | integrity | programming | data | notSupported | interface | other
+  /-- a `BaseException` that is not an `Exception` (`asyncio.CancelledError`, `GeneratorExit`, `KeyboardInterrupt`, …): the
+  `except Exception` of the retry wrapper does not even catch it -/
+  | base
   deriving DecidableEq, Repr
 
 structure Err where
@@ -40,6 +43,10 @@ structure Err where
   /-- `exc.args[0]` -/
   code : Nat
   deriving DecidableEq, Repr
+
+/-- `asyncio.CancelledError` delivered to the task that runs the operation (client disconnect, timeout, shutdown) while the
+statement at the fault position is in flight -/
+def cancelled : Err := ⟨.base, 0⟩
 
 /-- `operational_error_retry_codes = (1040, 1205, 1213, 2003, 2013)` -/
 def operationalRetryCodes : List Nat := [1040, 1205, 1213, 2003, 2013]
@@ -111,12 +118,20 @@ def exec (cur : σ) : List (Bool × W) → Option (Nat × Err) → Except Err σ
     | .error e' => .error e'
     | .ok cur' => exec cur' ws none
 
-/-- one `async with db.start() as tx: await fun(tx)`: the new database state and the exception that escaped, if any -/
+/-- one `async with db.start() as tx: await fun(tx)`: the new database state and the exception that escaped, if any.
+`Transaction._aexit_1(exc_type)`: `if exc_type: await conn.rollback() else: await conn.commit()` — ANY exception leaving the body,
+`BaseException`s included, rolls back.  `Transaction._aexit` runs it as `await asyncio.shield(self._aexit_1(exc_type))`: a task
+cancelled while the COMMIT is in flight (fault `(body.length, cancelled)`) sees `CancelledError`, but the shielded commit completes. -/
 def attempt (db : σ) (body : List (Bool × W)) (fault : Option (Nat × Err)) : σ × Option Err :=
   let c := Conn.begin db
-  match exec step c.working body fault with
-  | .ok cur => (Conn.commit { c with working := cur }, none)
-  | .error e => (Conn.rollback c, some e)
+  if fault = some (body.length, cancelled) then
+    match exec step c.working body none with
+    | .ok cur => (Conn.commit { c with working := cur }, some cancelled)
+    | .error e => (Conn.rollback c, some e)
+  else
+    match exec step c.working body fault with
+    | .ok cur => (Conn.commit { c with working := cur }, none)
+    | .error e => (Conn.rollback c, some e)
 
 structure Result (σ : Type) where
   db : σ
